@@ -15,7 +15,7 @@ Announcer::new removes it from every configured set before any other use; the fe
 that passes its eligibility test) and never handed out; (HANDOUT) Fetcher::next_node / next_fetch hand out a node only
 behind an eligibility predicate that requires `results.get(node)` to be `None` and `node != local_node`; (DISTINCT) what
 is counted is keyed by node id, or every addition is behind the "has no result yet" test; (WHO) who may write the
-recorded sets.
+recorded sets; (DRIVER) `Node::announce` subscribes to the node's events before it triggers the announcement.
 Not decided: the arithmetic over an arbitrary event sequence (that the counts equal the cardinalities of the sets a
 reference model would hold), Progress figures, the AlreadySynced construction-time results."""
 import itertools
